@@ -144,6 +144,24 @@ def monitor(state, op, o):
     return None
 
 
+def highlight_then_commit_grid(rows_for, hs):
+    """directed: a multi-letter input whose menu offers candidates covering less than the whole input; the highlight is moved
+    onto one of them (Down / Page_Down), then the editor's commit / confirm keys or the API commit follow.  What is delivered
+    must be the preview reported before (clauses a / a'); an editor that only confirms must deliver nothing."""
+    rows = [("a", "A1", "", ""), ("a", "A2", "", ""), ("ab", "AB", "", ""), ("b", "B1", "", ""), ("abc", "ABC", "", ""),
+            ("c", "C1", "", ""), ("bc", "BC", "", "")]
+    rows_for["hr"] = rows
+    for sid, s in sc.SCHEMAS.items():
+        if not set("abc") <= set(s["alphabet"]) or s.get("autoSelect") or s.get("maxCodeLength"):
+            continue
+        for word in ("ab", "abc", "abcb"):
+            for moves in (["Down"], ["Down", "Down"], ["Down", "Down", "Down"], ["Next"], ["Down", "Up"]):
+                for fin in ("key %d 0" % sc.XK["Return"], "key 32 0", "commit"):
+                    ops = ["key %d 0" % ord(ch) for ch in word] + ["key %d 0" % sc.XK[m] for m in moves]
+                    ops += [fin, "read_commit", fin, "read_commit"]
+                    hs.append((sid, ops, "hr"))
+
+
 def run(c):
     quick = c.tier == "quick"
     n_hist, n_ops = (84, 120) if quick else (700, 300)
@@ -161,6 +179,7 @@ def run(c):
     exe = sc.build()
     ws = sc.make_workspace(os.path.join(c.work, "ws"), list(sc.SCHEMAS))
     hs, rows_for = sc.standard_histories(c, n_hist, n_ops, profile="commit")
+    highlight_then_commit_grid(rows_for, hs)
     stats = sc.session_check(c, "C03", monitor, hs, rows_for, exe, ws, "commit/preview/delivery law")
     if not audit["ok"] and not c.violations:
         c.report("C03:proof", "proof obligation no longer checks: %s" % "; ".join("%s: %s" % f for f in audit["failures"])[:600],
